@@ -48,8 +48,27 @@ def load_known():
 
 def _docless(body):
     if body and isinstance(body[0], ast.Expr) and isinstance(body[0].value, ast.Constant) and isinstance(body[0].value.value, str):
-        return body[1:]
+        body = body[1:]
+    while body and isinstance(body[0], ast.Global):      # (expanded only into callers that declare the same names global, see Expander.target)
+        body = body[1:]
     return body
+
+
+def _leading_globals(fnode):
+    """Names declared `global` at the head of the function, or None when a `global` statement stands anywhere else."""
+    body = fnode.body
+    if body and isinstance(body[0], ast.Expr) and isinstance(body[0].value, ast.Constant) and isinstance(body[0].value.value, str):
+        body = body[1:]
+    names = set()
+    i = 0
+    while i < len(body) and isinstance(body[i], ast.Global):
+        names |= set(body[i].names)
+        i += 1
+    for st in body[i:]:
+        for x in ast.walk(st):
+            if isinstance(x, ast.Global):
+                return None
+    return names
 
 
 def _own_nodes(fnode):
@@ -94,7 +113,9 @@ def eligible(fi):
             return False
     gen = is_simple_generator(n)
     for x in _own_nodes(n):
-        if isinstance(x, (ast.YieldFrom, ast.Global, ast.Nonlocal, ast.ClassDef, ast.Lambda) + _FUNC):
+        if isinstance(x, (ast.YieldFrom, ast.Nonlocal, ast.ClassDef, ast.Lambda) + _FUNC):
+            return False
+        if isinstance(x, ast.Global) and _leading_globals(n) is None:
             return False
         if isinstance(x, ast.Yield) and not gen:
             return False
@@ -259,6 +280,7 @@ class Expander:
         self.counter = 0
         self.log = []           # (caller key, callee key, mode)
         self._foreign_memo = {}
+        self._respell = {}          # (callee key, caller rel) -> {global name of the callee's module: module alias in the caller's module}
         self.imports_needed = {}    # rel -> {local name: dotted target}: what expanded bodies from other modules refer to
 
     # -- binding ---------------------------------------------------------------------------------------------------
@@ -353,8 +375,9 @@ class Expander:
         self.counter += 1
         tag = "__inl%d" % self.counter
         rename = {}
+        gl = _leading_globals(fnode) or set()
         for nm in stored:
-            if nm in all_params:
+            if nm in all_params or nm in gl:
                 continue
             if nm in caller_names:
                 rename[nm] = nm + tag
@@ -384,6 +407,11 @@ class Expander:
                 if newp != p:
                     rename[p] = newp
                 pre.append(ast.copy_location(ast.Assign(targets=[ast.Name(id=newp, ctx=ast.Store())], value=clone(v)), call))
+        cm = getattr(self, "_caller", None)
+        if cm is not None and callee.module is not cm.module:
+            for nm, alias in (self._respell.get((callee.key, cm.module.rel)) or {}).items():
+                if nm not in all_params and nm not in stored:
+                    mapping[nm] = ast.Attribute(value=ast.Name(id=alias, ctx=ast.Load()), attr=nm, ctx=ast.Load())
         return mapping, pre, rename, body
 
     @staticmethod
@@ -425,6 +453,17 @@ class Expander:
             return None
         if is_simple_generator(r.node) != generator:
             return None
+        g = _leading_globals(r.node)
+        if g:
+            # the helper assigns module-level names: the same names must be module-level names in the caller (same module, declared global there)
+            if r.module is not caller.module or isinstance(caller.node, ast.Lambda):
+                return None
+            cg = set()
+            for x in _own_nodes(caller.node):
+                if isinstance(x, ast.Global):
+                    cg |= set(x.names)
+            if not g <= cg:
+                return None
         if r.module is not caller.module and self._foreign_names(r, caller) is None:
             return None
         if r.is_async != awaited:
@@ -446,6 +485,7 @@ class Expander:
         src, dst = r.module, caller.module
         local = _stored_names(r.node.body) | {a.arg for a in ast.walk(r.node.args) if isinstance(a, ast.arg)} | _comp_names(r.node.body)
         need = {}
+        respell = {}
         ok = True
         for x in ast.walk(r.node):
             if not (isinstance(x, ast.Name) and isinstance(x.ctx, ast.Load)) or x.id in local:
@@ -465,6 +505,12 @@ class Expander:
             cur = dst.imports.get(nm)
             if cur == tgt:
                 continue
+            if nm not in src.imports:
+                src_dotted = tgt.rsplit(".", 1)[0]
+                alias = next((l for l, t_ in sorted(dst.imports.items()) if t_ == src_dotted), None)
+                if alias is not None:
+                    respell[nm] = alias
+                    continue
             if cur is None and nm not in dst.functions and nm not in dst.classes and nm not in dst.globals and \
                     not any(isinstance(y, ast.Name) and y.id == nm and isinstance(y.ctx, ast.Store) for y in ast.walk(dst.tree)):
                 need[nm] = tgt
@@ -472,6 +518,8 @@ class Expander:
                 ok = False
         res = need if ok else None
         self._foreign_memo[key] = res
+        if ok and respell:
+            self._respell[key] = respell
         if res:
             self.imports_needed.setdefault(dst.rel, {}).update(res)
         return res
